@@ -26,6 +26,34 @@ for p, out in procs:
         e["kinds"].update(kinds.split("+"))
         if e["example"] is None or len(scen) < len(e["example"][0]):
             e["example"] = (scen, v["what"])
+# phase 2: locally minimal failing scenarios of the larger shapes explored by the thorough tier (same shapes,
+# same budget, stride 1 = the whole space), e.g. `connect(0,0); connect(1,1) || connect(0,1)`: each cross-thread
+# pair is serialisable on its own, the three calls together are not
+LARGER_SHAPES = "2+1:1,1+1+1:0"
+LARGER_BUDGET = "3000"
+N2 = 64
+todo = list(range(N2))
+running = []
+larger = {}
+while todo or running:
+    while todo and len(running) < N:
+        i = todo.pop()
+        out = "/verif/harness/target/shards/known2_%d.json" % i
+        running.append((subprocess.Popen([GV, "conc", "--prop", "C17", "--shapes", LARGER_SHAPES, "--budget", LARGER_BUDGET, "--shard", str(i), "--nshards", str(N2), "--out", out]), out))
+    p, out = running.pop(0)
+    p.wait()
+    r = json.load(open(out))
+    os.remove(out)
+    for v in r["violations"]:
+        fl, cls, scen, kinds, sig = v["key"].split(" ## ")
+        if sig.startswith("sig="):
+            assert (fl, cls) in classes and classes[(fl, cls)]["scenarios"].get(scen) == "%s ## %s" % (kinds, sig), "a reduced 2x1 scenario is missing from phase 1: " + v["key"]
+            continue
+        e = larger.setdefault((fl, cls), {"larger": {}, "kinds": set(), "example": None})
+        e["larger"][scen] = kinds
+        e["kinds"].update(kinds.split("+"))
+        if e["example"] is None or len(scen) < len(e["example"][0]):
+            e["example"] = (scen, v["what"])
 path = os.path.join(ROOT, "known_findings.json")
 k = json.load(open(path))
 k["findings"] = [f for f in k["findings"] if not (f["property"] == "C17" and f["status"] == "open")]
@@ -36,5 +64,14 @@ for (fl, cls), e in sorted(classes.items()):
             fl, cls, " and ".join(sorted(e["kinds"])), len(e["scenarios"]), e["example"][1][:420]),
         "scenarios": dict(sorted(e["scenarios"].items())),
     })
+for (fl, cls), e in sorted(larger.items()):
+    k["findings"].append({
+        "property": "C17", "status": "open", "key": "%s ## %s" % (fl, cls),
+        "what": "[%s] %s: %s in some schedules although every cross-thread pair of these calls is serialisable on its own (%d initial-edge variants listed); multi-lock operations are not atomic across their two nodes. Example: %s" % (
+            fl, cls, " and ".join(sorted(e["kinds"])), len(e["larger"]), e["example"][1][:420]),
+        "larger": dict(sorted(e["larger"].items())),
+        "explored_with": {"shapes": LARGER_SHAPES, "budget": LARGER_BUDGET},
+    })
 json.dump(k, open(path, "w"), indent=1)
+print("larger classes:", len(larger), "scenarios:", sum(len(e["larger"]) for e in larger.values()))
 print("classes:", len(classes), "scenarios:", sum(len(e["scenarios"]) for e in classes.values()))
